@@ -29,7 +29,7 @@ SF = "Parser.StreamFinal"
 which = sys.argv[1:] or ["C02", "C03", "C04", "C05", "C07", "C08", "C09", "C10", "C11", "C12", "C14", "C18"]
 
 if "C02" in which:
-    put("C02", "Parser.ReqWire Parser.ReqTargets " + SF, [
+    put("C02", "Parser.ReqWire Parser.ReqTargets " + SF + " Parser.ProgressTargets Parser.ProgressProofs", [
         ("the CONCRETE parser (cursors into one buffer), one call under the caller contract, ANY bytes: Ok or Err, never a panic; "
          "what it hands over is exactly the front of the specification content K of (fed ++ anything to come); replies R and "
          "every later stream's content F are conserved; Status.stream / Status.output count what was appended; the end flag is "
@@ -45,6 +45,11 @@ if "C02" in which:
         ("... and when the wire consists of whole records only", "C02_delivery_exact", "C02_delivery_exact"),
         ("Status.stream_end is true exactly when the parser stands at the stream's end; then everything was delivered", "C02_stream_end", "C02_stream_end"),
         ("liveness: once the terminator has been fed, the next parse(None) call reports the end", "C02_end_reported", "C02_end_reported"),
+        ("PROGRESS in both delivery modes: a call that returns Ok leaves nothing of the selected stream behind in the unparsed part of the "
+         "buffer, unless the caller's destination is full (then exactly c bytes were delivered): a call returns 0 bytes only when the "
+         "buffered input holds no further byte of the stream", "parse_progress", "C02_parse_progress", ["parse_progress_stmt"]),
+        ("... along a whole schedule: if the last call left its destination unfilled, what the caller has received plus the stream "
+         "buffer is everything the bytes fed so far contain of the stream", "schedule_progress", "C02_schedule_progress", ["schedule_progress_stmt"]),
     ], tail='''(* non-vacuity: a Filter request, 9 records (Stdin / junk / Data), a 7-operation schedule with 1..n byte chunks *)
 Example C02_example : cdelivered 10 exf_sp0 exf_ops1 ++ stream_buffer (cfinal 10 exf_sp0 exf_ops1) = [97; 98; 99].
 Proof. exact (proj1 exf_C02). Qed.
@@ -256,7 +261,7 @@ From FV Require Import %s%s Async.ReadsWTargets Async.ReadsWProofs.
 if "C11" in which:
     head = '''(* Props/C11.v — A client abort ends exactly the aborted request; the connection stays usable.
    Only statements.  Request-parser side: Parser/ReqRecords.v; connection side: Async/ConnReads.v, Async/ConnWrites.v. *)
-From FV Require Import %sCodec.Bodies Parser.ReqWire Parser.ReqRecords Parser.ReqFinal Parser.AbortProofs %s Async.ConnLoop.
+From FV Require Import %sCodec.Bodies Parser.ReqWire Parser.ReqRecords Parser.ReqFinal Parser.AbortProofs %s Async.ConnLoop Async.AbortFlowTargets Async.AbortFlowProofs.
 ''' % (PRE, CR)
     put("C11", "", [
         ("during Params: an AbortRequest for the request in progress is consumed entirely, exactly one "
@@ -275,7 +280,30 @@ From FV Require Import %sCodec.Bodies Parser.ReqWire Parser.ReqRecords Parser.Re
         ("close() after an abort: record_boundary returns at once at the abort header and ignores the abort error", "boundary_loop_abort", "C11_boundary_ignores_abort"),
         ("... so close writes exactly one EndRequest with the given status (ABORT unless the handler chose its own) and, with "
          "KeepConn, returns the connection for reuse: the reuse law of C07", "close_reuse_iff", "C11_one_endrequest_and_reuse"),
-    ], head=head)
+        ("---- the abort flow end to end ----  Request::close on an aborted request, every fault-free transport, any status: it never "
+         "suspends for good, reads nothing, writes exactly close_bytes (pending replies, the stream terminators owed, ONE EndRequest), "
+         "and with KeepConn hands back a parser whose leftover is exactly the unparsed input beginning with the retained abort header "
+         "(skipped as idle junk by the next request parser: C01/C07); without KeepConn the connection ends after the complete epilogue",
+         "abort_close", "C11_abort_close", ["abort_close_stmt"]),
+        ("where the aborted state comes from: a handler that only reads and does not fabricate a ConnectionAborted error of its own ends "
+         "with Err(ConnectionAborted) on a fault-free transport ONLY because a read hit the client's AbortRequest: the parser stands at "
+         "the abort header and Request.aborted is set", "handler_abort_source", "C11_handler_abort_source", ["handler_abort_source_stmt"]),
+        ("one iteration of Token::run for such a request: the handler's Err(ConnectionAborted) becomes ExitStatus::ABORT ('ABRT', "
+         "RequestComplete), exactly close_bytes follow what the handler run had written, nothing more is read; with KeepConn the loop "
+         "goes on with the handed-back parser, otherwise the task returns", "abort_iteration", "C11_abort_iteration", ["abort_iteration_stmt"]),
+    ], head=head, tail='''(* non-vacuity of C11_abort_close: a Responder request (KeepConn) whose Stdin is followed by a GetValues query and the AbortRequest; the
+   handler propagates its read errors; reads and writes are cut and Pending in between: every hypothesis holds for the state the
+   handler run ends in, and close writes the two stream terminators and ONE EndRequest carrying "ABRT"; the handed-back parser holds
+   the abort record and what followed it *)
+Example C11_abort_close_example :
+  match do_close 10 AbortExample.r1 EXIT_Complete EXIT_ABORT_CODE AbortExample.w1 with
+  | Ok (inl rp') w' =>
+      wlog w' = wlog AbortExample.w1 ++ [1;6;0;7;0;0;0;0; 1;7;0;7;0;0;0;0; 1;3;0;7;0;8;0;0; 65;66;82;84; 0; 0;0;0] /\\
+      held rp' = [1;2;0;7;0;0;2;0;9;9; 1;5;0;7;0;0;0;0] /\\ cap rp' = 128 /\\ st rp' = Header
+  | _ => False
+  end.
+Proof. exact AbortExample.abort_close_instance. Qed.
+''')
 
 if "C10" in which:
     put("C10", "Async.Writer Async.WriterTargets Async.WriterProofs", [
